@@ -176,6 +176,33 @@ fn one_matrix(l: &mut Local, m: &Mat, rng: &mut Rng, nvec: usize, limits: &[usiz
                 }
             }
         }
+        // the limit at which the input converges, exactly: find the iteration k of the first success with a generous
+        // limit, then ask for limit k (success at the very last allowed iteration) and k-1 (failure)
+        if v % 3 == 1 {
+            for (name, dec) in decs.iter_mut() {
+                let Ok(Ok(o)) = guard(|| dec.decode(&llrs, 60)) else { continue };
+                let k = o.iterations;
+                if k == 0 {
+                    continue;
+                }
+                for limit in [k, k - 1] {
+                    l.eval();
+                    match guard(|| dec.decode(&llrs, limit)) {
+                        Err(p) => {
+                            l.violation(format!("decode panicked ({}): {}", if name.starts_with("HL") { "layered" } else { "flooding" }, panic_class(&p)), m.json().set("implementation", name.clone()).set("llrs", jfs(&llrs)).set("limit", limit));
+                            if let Ok(im) = name.parse::<DecoderImplementation>() {
+                                *dec = im.build_decoder(h.clone());
+                            }
+                        }
+                        Ok(res) => {
+                            judge(l, name, m, &llrs, limit, &res, cname);
+                            l.count(if limit == k { "calls_with_limit_equal_to_convergence_iteration" } else { "calls_with_limit_one_below_convergence" });
+                            l.max("largest_convergence_iteration_replayed", k as f64);
+                        }
+                    }
+                }
+            }
+        }
         if v == 0 {
             l.sample(|| m.json().set("llr_class", cname).set("llrs", jfs(&llrs)).set("limits", limits.iter().map(|&x| x as u64).collect::<Vec<_>>()).set("implementations", decs.len()));
         }
@@ -183,7 +210,7 @@ fn one_matrix(l: &mut Local, m: &Mat, rng: &mut Rng, nvec: usize, limits: &[usiz
 }
 
 pub fn run(run: &mut Run) {
-    run.rule = "all 36 names from DecoderImplementation::value_variants() built through build_decoder x generated matrices (10 families, row weight >= 2, entries inserted in sorted or shuffled order) x 12 hostile LLR classes (|x| <= 1e30: subnormal, tiny, huge, +-0, mixed, 8-bit rounding boundaries, zero blocks, codeword +/- few flips, all equal) x limits from {0,1,2,3,5,10,50} plus usize::MAX and usize::MAX-1 on inputs that converge; repeat-twice codes of 65540 and 131080 bits (index widths) with one unreliable position beyond 2^16 for all 36 names; thorough adds noisy all-zero-codeword frames on CCSDS AR4JA r1/2 k=1024 and DVB-S2 short 1/2; oracle = own syndrome on the entry list and sign pattern (llr <= 0 -> 1); non-trivial = decode that ran >= 1 iteration (success after >= 1 or failure); distinct by (implementation, matrix, LLR vector, limit) digest".into();
+    run.rule = "all 36 names from DecoderImplementation::value_variants() built through build_decoder x generated matrices (10 families, row weight >= 2, entries inserted in sorted or shuffled order) x 12 hostile LLR classes (|x| <= 1e30: subnormal, tiny, huge, +-0, mixed, 8-bit rounding boundaries, zero blocks, codeword +/- few flips, all equal) x limits from {0,1,2,3,5,10,11,13,21,50}, the exact iteration of the first success and one below it (also on slowly converging frames of (3,6)-regular codes), plus usize::MAX and usize::MAX-1 on inputs that converge; repeat-twice codes of 65540 and 131080 bits (index widths) with one unreliable position beyond 2^16 for all 36 names; thorough adds noisy all-zero-codeword frames on CCSDS AR4JA r1/2 k=1024 and DVB-S2 short 1/2; oracle = own syndrome on the entry list and sign pattern (llr <= 0 -> 1); non-trivial = decode that ran >= 1 iteration (success after >= 1 or failure); distinct by (implementation, matrix, LLR vector, limit) digest".into();
     run.assumptions = vec![
         "a wrong-length LLR slice is outside the domain (decode asserts on it)".into(),
         "harness profile enables overflow-checks and debug-assertions for the library".into(),
@@ -195,7 +222,9 @@ pub fn run(run: &mut Run) {
     let impls2 = impls.clone();
     run.sub("matrices", n, move |l, idx, rng| {
         let m = if idx % 16 == 0 { genm::decoder_matrix(rng, 10, 24) } else { genm::decoder_matrix(rng, 6, 12) };
-        let all_limits = [0usize, 1, 2, 3, 5, 10, 50];
+        // one matrix in eight gets bits that take part in no check (only the row weights are constrained)
+        let m = if idx % 8 == 3 { genm::add_isolated_columns(&m, rng) } else { m };
+        let all_limits = [0usize, 1, 2, 3, 5, 10, 11, 13, 21, 50];
         let mut limits = vec![0usize, 1];
         limits.push(*rng.pick(&all_limits[2..]));
         if rng.coin() {
@@ -211,6 +240,63 @@ pub fn run(run: &mut Run) {
         let m = Mat::new(2, 3, vec![(0, 0), (0, 1), (1, 1), (1, 2)], "directed-2x3");
         one_matrix(l, &m, rng, 24, &[0, 1, 3], &impls3);
     });
+    // slow convergence: (3,6)-regular codes of 96..144 bits with noise near the decoding threshold need 5..30
+    // iterations; the limit is then set exactly to the iteration of the first success, and one below
+    if !cfg!(miri) {
+        let impls6 = impls.clone();
+        run.sub("slow-convergence", run.tier.n(144, 2880), move |l, idx, rng| {
+            let im = impls6[idx as usize % impls6.len()];
+            let name = im.to_string();
+            let rows = *rng.pick(&[48usize, 60, 72]);
+            let n = 2 * rows;
+            // every column in 3 rows, rows filled evenly
+            let mut e: Vec<(usize, usize)> = Vec::new();
+            let mut slots: Vec<usize> = (0..3 * n).map(|i| i % rows).collect();
+            rng.shuffle(&mut slots);
+            for c in 0..n {
+                for j in 0..3 {
+                    e.push((slots[3 * c + j], c));
+                }
+            }
+            let m = Mat::new(rows, n, e, "regular-3-6");
+            if m.row_weights().iter().any(|&w| w < 2) {
+                return;
+            }
+            let h = m.to_sparse();
+            let mut dec = im.build_decoder(h.clone());
+            for _ in 0..6 {
+                let sigma = rng.uniform(0.75, 0.95);
+                let llrs: Vec<f64> = (0..n).map(|_| 2.0 * (1.0 + sigma * rng.normal()) / (sigma * sigma)).collect();
+                let Ok(Ok(o)) = guard(|| dec.decode(&llrs, 80)) else { continue };
+                let k = o.iterations;
+                if k < 2 {
+                    continue;
+                }
+                for limit in [k, k - 1, k + 1] {
+                    l.eval();
+                    match guard(|| dec.decode(&llrs, limit)) {
+                        Err(p) => {
+                            l.violation(format!("decode panicked on a slowly converging frame: {}", panic_class(&p)), J::obj().set("implementation", name.clone()).set("limit", limit).set("panic", p));
+                            dec = im.build_decoder(h.clone());
+                        }
+                        Ok(res) => {
+                            let kind = judge_compact(l, &name, &m, &llrs, limit, &res);
+                            l.count(&format!("slow:{}", kind));
+                            l.max("largest_convergence_iteration_replayed", k as f64);
+                            if k >= 11 {
+                                l.count("slow_frames_converging_at_iteration_11_or_later");
+                            }
+                            if kind == "ok1" || kind == "fail" {
+                                let mut d = Dig::new();
+                                d.s(&name).u(limit as u64).fs(&llrs[..12]);
+                                l.nt(d.get());
+                            }
+                        }
+                    }
+                }
+            }
+        });
+    }
     // codes longer than 2^16 and 2^17 bits (index width): x_i = x_{i+n/2}, one unreliable position beyond the boundary
     if !cfg!(miri) {
         let impls5 = impls.clone();
